@@ -98,6 +98,11 @@ def gen_case(run_seed: int, index: int, tier: str) -> dict:
                     raise C.Inadmissible("no decoder of this kind within the size bounds")
                 comp["decoder"] = rng.choice(kinds)
                 comp["dec_opts"] = {}
+                # the documented optional second output: error pattern (hard decoders, Wagner) / soft codeword (BP, min-sum)
+                if comp["decoder"] in ("syndrome", "ml", "bm", "wagner") and rng.random() < 0.3:
+                    comp["second_output"] = "return_errors"
+                elif comp["decoder"] in ("bp", "minsum") and rng.random() < 0.3:
+                    comp["second_output"] = "return_soft"
                 C.build_decoder(comp["code"], comp["decoder"], comp["dec_opts"])
             d, _ = C.advertised_distance(comp["code"], enc)
             t = (d - 1) // 2 if d else 1
@@ -201,6 +206,9 @@ def _component(comp, fresh=False):
         return (lambda x: enc(x)), C.ENCODER_CLASS[comp["code"]["family"]]
     if kind in ("decoder_hard", "decoder_soft"):
         dec = C.build_decoder(comp["code"], comp["decoder"], comp.get("dec_opts"), fresh=fresh and comp["decoder"] not in ("syndrome", "ml"))
+        if comp.get("second_output"):
+            kw = {comp["second_output"]: True}
+            return (lambda x: dec(x, **kw)), C.DECODER_CLASS[comp["decoder"]] + f"[{comp['second_output']}]"
         return (lambda x: dec(x)), C.DECODER_CLASS[comp["decoder"]]
     if kind == "modulator":
         m, _ = _modem(comp, fresh)
@@ -281,6 +289,11 @@ def _assemble(comp, tensors, layout):
 
 def _split(comp, out, layout, nmembers):
     """per-member slices of the output, or None if the output cannot carry one answer per member"""
+    if isinstance(out, tuple) and len(out) == 2 and all(isinstance(o, torch.Tensor) for o in out):
+        a, b = _split(comp, out[0], layout, nmembers), _split(comp, out[1], layout, nmembers)
+        if a is None or b is None:
+            return None
+        return [(x, y) for x, y in zip(a, b)]
     if not isinstance(out, torch.Tensor):
         return None
     if layout in ("1d", "single"):
@@ -302,6 +315,11 @@ def _split(comp, out, layout, nmembers):
 
 
 def _same(a, b, exact):
+    if isinstance(a, tuple) or isinstance(b, tuple):
+        if not (isinstance(a, tuple) and isinstance(b, tuple)):
+            return False
+        # first part: decoded bits (exact); second part: error pattern (exact) or soft codeword (float)
+        return _same(a[0], b[0], True) and _same(a[1], b[1], not a[1].is_floating_point() or bool((a[1] == a[1].round()).all() and (b[1] == b[1].round()).all()))
     if a.shape != b.shape:
         return False
     if exact:
@@ -380,8 +398,10 @@ def execute(case: dict) -> RunResult:
         if parts is None:
             violate("output_layout", f"call {ci} ({lay}, members {members}, input shape {list(x.shape)}) returned shape {list(getattr(out, 'shape', []))}, which cannot hold one answer per member", layout=lay_kind)
             continue
-        if want_len is not None and any(p_.dim() != 1 or p_.shape[0] != want_len for p_ in parts):
-            violate("output_dim", f"call {ci} ({lay}, members {members}, input shape {list(x.shape)}) returned shape {list(out.shape)}: {parts[0].shape[-1] if parts[0].dim() else 0} values per sample instead of {want_len}", layout=lay_kind)
+        firsts = [p_[0] if isinstance(p_, tuple) else p_ for p_ in parts]
+        if want_len is not None and any(p_.dim() != 1 or p_.shape[0] != want_len for p_ in firsts):
+            oshape = list(out[0].shape) if isinstance(out, tuple) else list(out.shape)
+            violate("output_dim", f"call {ci} ({lay}, members {members}, input shape {list(x.shape)}) returned shape {oshape}: {firsts[0].shape[-1] if firsts[0].dim() else 0} values per sample instead of {want_len}", layout=lay_kind)
             continue
         for pos, (m, part) in enumerate(zip(members, parts)):
             answers[m].append(({"call": ci, "layout": lay_kind, "pos": pos, "batch": len(members), "fresh": call["fresh"]}, part))
@@ -393,12 +413,17 @@ def execute(case: dict) -> RunResult:
             for ctx, a in lst[1:]:
                 if not _same(ref, a, exact):
                     pair = "|".join(sorted({ref_ctx["layout"], ctx["layout"]}))
-                    diff = "shapes differ" if a.shape != ref.shape else f"{int((a != ref).sum())} of {a.numel()} values differ"
+                    if isinstance(a, tuple) or isinstance(ref, tuple):
+                        diff = "the (decoded, second output) pairs differ"
+                    else:
+                        diff = "shapes differ" if a.shape != ref.shape else f"{int((a != ref).sum())} of {a.numel()} values differ"
                     violate("answers_differ", f"sample {m} answered differently in two evaluations: {ref_ctx} vs {ctx}: {diff}; sample = {case['samples'][m] if len(case['samples'][m]) <= 40 else str(case['samples'][m][:40]) + '...'}", layouts=pair)
                     break
     if nontrivial:
         res.nontrivial.append(core.short_hash(case))
     res.probes[f"kind.{kind}"] += 1
+    if comp.get("second_output"):
+        res.probes[f"second_output.{comp['second_output']}.answers"] += sum(len(v) for v in answers.values())
     res.digest, res.n_events = log.digest(), len(log)
     return res
 
